@@ -216,7 +216,8 @@ def check(prog: Program, tier: str) -> Result:
                         n_expr += 1
                         res.ok("R13.2", fn.loc(n), fn.fq, short(n, 90), "line table built with the tokenizer's line separators, indexed by an ast line number")
     _r13_3(prog, res)
-    res.floors.update({"R13.1": 3, "R13.2": 1, "R13.3": 4})
+    _r13_4(prog, res)
+    res.floors.update({"R13.1": 3, "R13.2": 1, "R13.3": 4, "R13.4": 4})
     res.analysed.update({"position_expressions": n_expr, "functions_returning_positions": {f"{k[0]}.{k[1]}": v for k, v in sorted(ret_units.items())}})
     return res
 
@@ -306,10 +307,64 @@ def _r13_3(prog: Program, res: Result) -> None:
         res.decide(ok, "R13.3", lc.loc(), lc.fq, "line/column of a match", f"computed from the same line table as the spans ({sorted(t1 & t2)})" if ok else f"line/column use {sorted(t1)}, spans use {sorted(t2)}")
 
 
+def _r13_4(prog: Program, res: Result) -> None:
+    """match / fullmatch succeed exactly when SOME candidate is anchored: the candidates of find_replace come in
+    tree-walk order, not in position order, so the scan must look at every candidate - the only early exit from the
+    loop is the return of an anchored candidate."""
+    for name, anchored in (("match", "start"), ("fullmatch", "span")):
+        fn = prog.funcs.get(("pattern_matching", name))
+        if fn is None:
+            raise AnalysisError(f"anchor pattern_matching.{name} not found")
+        loops = []
+        for n in walk_own(fn.node):
+            if isinstance(n, ast.For):
+                it = n.iter
+                if isinstance(it, ast.Name):
+                    defs = [v for (_s, v) in bindings(fn).get(it.id, []) if v is not None]
+                    it = defs[0] if len(defs) == 1 else it
+                if isinstance(it, ast.Call) and norm(it.func).split(".")[-1] in ("find_replace", "finditer"):
+                    loops.append((n, it))
+        if len(loops) != 1:
+            res.undecided("R13.4", fn.loc(), fn.fq, f"{name}: candidate scan", f"{len(loops)} loops over find_replace/finditer: scan written in an unrecognised way")
+            continue
+        loop, it = loops[0]
+        argtexts = [norm(a) for a in it.args] + [norm(k.value) for k in it.keywords]
+        same_input = all(p in argtexts for p in fn.posparams[:2])
+        res.decide(same_input, "R13.4", fn.loc(loop), fn.fq, f"{name}: candidates", "all candidates of the same (pattern, source)" if same_input
+                   else "the candidates are not computed from the function's own pattern and source")
+        early = []
+        for n in ast.walk(loop):
+            if n is loop:
+                continue
+            if isinstance(n, ast.Break):
+                early.append(n)
+            if isinstance(n, ast.Return) and (n.value is None or (isinstance(n.value, ast.Constant) and n.value.value is None)):
+                early.append(n)
+        inner_loops = [n for n in ast.walk(loop) if n is not loop and isinstance(n, (ast.For, ast.While))]
+        early = [e for e in early if not any(e in list(ast.walk(l)) for l in inner_loops)]
+        ok = not early
+        res.decide(ok, "R13.4", fn.loc(early[0]) if early else fn.loc(loop), fn.fq, f"{name}: exhaustive scan",
+                   "the loop is left early only by returning a candidate" if ok else
+                   f"`{short(early[0], 40)}` leaves the scan before every candidate was examined; candidates arrive in tree-walk order, "
+                   "so an anchored match can come after a later-positioned one")
+        tail = fn.node.body[-1]
+        ok = isinstance(tail, ast.Return) and (tail.value is None or norm(tail.value) == "None")
+        res.decide(ok, "R13.4", fn.loc(tail), fn.fq, f"{name}: result when no candidate is anchored", "None" if ok else "falling out of the scan no longer answers None")
+
+
 # ---------------------------------------------------------------------------------------------- self-test
 from ..selftest import Variant  # noqa: E402
 
 VARIANTS: List[Variant] = [
+    Variant("match-stops-at-first-later-candidate", "FIRE", "pattern_matching",
+            "        if m.span.start == module_body_range.start:\n            return m\n",
+            "        if m.span.start == module_body_range.start:\n            return m\n        if m.span.start > module_body_range.start:\n            break\n", "R13.4"),
+    Variant("fullmatch-gives-up-on-first-candidate", "FIRE", "pattern_matching",
+            "        if m.span == module_body_range:\n            return m\n",
+            "        if m.span == module_body_range:\n            return m\n        return None\n", "R13.4"),
+    Variant("match-scan-with-continue", "SILENT", "pattern_matching",
+            "        if m.span.start == module_body_range.start:\n            return m\n",
+            "        if m.span.start != module_body_range.start:\n            continue\n        return m\n"),
     Variant("column-added-without-conversion", "FIRE", "core",
             "    character_offset = len(line.encode(\"utf-8\")[:col_offset].decode(\"utf-8\", errors=\"ignore\"))\n    return line_start_charnos[lineno - 1] + character_offset",
             "    return line_start_charnos[lineno - 1] + col_offset", "R13.1"),
